@@ -56,9 +56,13 @@ def render_generated(doc, lay, rnd):
                     tab = rnd.random() < 0.3
                 else:
                     pads, tab = (0, 3, 1, 1), False
+                if str(it[1]).startswith("."):
+                    pads = (max(1, pads[0]),) + tuple(pads[1:])      # a conformant file keeps 'DEPT' and '.1IN' apart
                 ln = docmodel.render_items([it], k, vers, [pads])[0]
                 if tab:
                     ln = ln.replace("   ", "\t", 1)
+                if lay.get("repad") and pads[0] >= 1 and it[0] and rnd.random() < 0.25 and ln.startswith(it[0] + " " * pads[0] + "."):
+                    ln = it[0] + "\t" + ln[len(it[0]) + pads[0]:]      # a tab, not blanks, between the mnemonic and the period
                 if lay.get("repad"):
                     ln = rnd.choice(["", "", " ", "\t", "    "]) + ln + rnd.choice(["", "", "  ", "\t"])
                 lines.append(ln)
@@ -295,6 +299,12 @@ class C09(Prop):
             doc = docmodel.std_doc(g, ncurves=nc, nrows=g.choice([1, 1, 2, 3, 5, 22, 25]) if g.random() < 0.8 else g.randint(1, 30),
                                    wrap=wrap, custom=g.choice([0, 0, 1, 2]), cell=cell)
             dlm = g.choice([None, None, "SPACE", "TAB", "COMMA"])
+            if g.random() < 0.12:
+                # depth in tenths of an inch: the unit starts with a period
+                for sec in doc["sections"]:
+                    for it in sec.get("items", []):
+                        if (sec["kind"] == "C" and it[0] == "DEPT") or (sec["kind"] == "W" and it[0] in ("STRT", "STOP", "STEP")):
+                            it[1] = ".1IN"
             if g.random() < 0.15:
                 # a header section after the data section (its position in the file is found by tell/seek arithmetic)
                 movable = [k for k, sec in enumerate(doc["sections"]) if sec["kind"] in ("P", "O", "X")]
